@@ -19,7 +19,7 @@ ASSUMPTIONS = ['vmon/ref/cards.py Luhn (validated on the ISO/IEC 7812 example)',
                'accepts = returns without raising and not False; rejects = raises or returns False',
                'children are /venv/bin/python -O / -OO running this same module (which uses no assert itself)']
 MODES = {'normal': [], 'O': ['-O'], 'OO': ['-OO']}
-SHARD_TIMEOUT = {'quick': 600, 'thorough': 3600}
+SHARD_TIMEOUT = {'quick': 1200, 'thorough': 9000}
 
 
 def prepare(ctx):
